@@ -28,7 +28,8 @@ import (
 // preserved; their positions collapse onto the use, so position lookups resolve
 // to the using statement.
 func (p *Prog) detemp(info *types.Info, body *ast.BlockStmt) {
-	for round := 0; round < 6; round++ {
+	// (one substitution per statement list and round; a struct of a dozen fields split into locals needs a dozen)
+	for round := 0; round < 48; round++ {
 		d := &detemper{p: p, info: info, body: body}
 		d.index()
 		if !d.rewriteLists(body) {
@@ -442,7 +443,25 @@ func (d *detemper) settledCopy(def ast.Stmt, e ast.Expr) bool {
 func (d *detemper) stablePath(e ast.Expr) bool {
 	// the address of a local variable never changes
 	if u, ok := ast.Unparen(e).(*ast.UnaryExpr); ok && u.Op == token.AND {
-		if id, ok := ast.Unparen(u.X).(*ast.Ident); ok {
+		// (so does the address of a field of a local reached without indirection: &x.f.g)
+		at := ast.Unparen(u.X)
+		for {
+			sel, ok := at.(*ast.SelectorExpr)
+			if !ok {
+				break
+			}
+			s := d.info.Selections[sel]
+			// (a recorded selection may stem from a pointer parameter that the expansion replaced by the
+			// variable itself: for a directly declared field the operand's own type decides)
+			if s == nil || s.Kind() != types.FieldVal || (s.Indirect() && len(s.Index()) != 1) {
+				return false
+			}
+			if _, isPtr := d.info.TypeOf(sel.X).Underlying().(*types.Pointer); isPtr {
+				return false
+			}
+			at = ast.Unparen(sel.X)
+		}
+		if id, ok := at.(*ast.Ident); ok {
 			if o, ok := d.obj(id).(*types.Var); ok && !o.IsField() && o.Pkg() != nil && o.Parent() != o.Pkg().Scope() {
 				return true
 			}
